@@ -34,7 +34,7 @@ def names_of(p):
 def set_names(p, assignment: dict):
     for q in subterms(p):
         if isinstance(q, NamedPredicate):
-            q.v = assignment[q.name]
+            q.v = assignment.get(q.name, False)      # (a result that mentions a variable the input does not have: judged as False)
 
 
 def atoms_defined(p, x) -> bool:
@@ -405,3 +405,74 @@ def could_be_known(p, pid) -> bool:
         if 11 in ids and isinstance(t, PP.OrPredicate) and PP.EqPredicate in {type(s) for s in subterms(t)}:
             return True
     return False
+
+
+# ---------------------------------------------------------------- histories (see history.py)
+def history_search(pid, payload, templates, points, assignments=False, extra_calls=(), extra_poison=(), vetted=False):
+    """the same small optimize() calls as ONE history in one process: every call works on a fresh deep copy of its template
+    (addresses get reused), can_optimize() of another formula is asked in between, ill-typed and too-deep trees are optimized
+    (and their exceptions caught) half-way, everything is repeated in several orders.  A call is judged by the property itself
+    (same answer as the original at every point); calls that already fail when fresh are left to the other families."""
+    import copy
+    import history
+    from predicate import can_optimize
+    from predicate.standard_predicates import ge_p, le_p
+    from predicate.named_predicate import NamedPredicate as _N
+    rng = rng_of(payload)
+
+    def thunk(tpl, other):
+        def th():
+            can_optimize(copy.deepcopy(other))           # a temporary that is dropped at once: its address is free again
+            t = copy.deepcopy(tpl)
+            q = optimize(t)
+            ref = copy.deepcopy(tpl)                     # the original, untouched by whatever optimize did to its argument
+            d = first_difference_pair(ref, q, points, assignments)
+            if d is None:
+                return None
+            x, a, b = d
+            return {"p": repr(tpl), "p_structure": skey(tpl), "optimized": repr(q), "x": repr(x), "original_answer": repr(a), "optimized_answer": repr(b)}
+        return th
+    calls = []
+    for i, tpl in enumerate(templates):
+        calls.append((f"optimize({tpl!r})  [after can_optimize({templates[(i * 7 + 3) % len(templates)]!r}) on a temporary]", thunk(tpl, templates[(i * 7 + 3) % len(templates)])))
+    calls += list(extra_calls)
+
+    def deep(n):
+        t = _N(name="a")
+        for _ in range(n):
+            t = PP.AndPredicate(_N(name="b"), t)
+        return t
+    poison = [("optimize(ge_p(1) & le_p('x'))  # TypeError: constants that cannot be compared", lambda: optimize(ge_p(1) & le_p("x")))] * 60
+    poison += [("optimize(~a & (ge_p(1) & le_p('x')))", lambda: optimize(PP.NotPredicate(_N(name="a")) & (ge_p(1) & le_p("x")))),
+               ("optimize(a & <and-chain nested 3000 deep>)  # RecursionError", lambda: optimize(PP.AndPredicate(_N(name="a"), deep(3000)))),
+               ("optimize(<and-chain nested 5000 deep>)  # RecursionError", lambda: optimize(deep(5000)))]
+    poison += list(extra_poison)
+    n, fails = history.run(calls, poison=poison, passes=4, seed=int(payload.get("seed", 0)), recursion_limit=1000, vetted=vetted)
+    return n, fails
+
+
+def first_difference_pair(p, q, points, assignments):
+    """first point at which p (defined there) and q answer differently: (x, p(x), q(x)) or None"""
+    if assignments:
+        ns = names_of(p)
+        for bits in itertools.product([False, True], repeat=len(ns)):
+            env = dict(zip(ns, bits))
+            set_names(p, env)
+            for t in subterms(q):
+                if isinstance(t, NamedPredicate):
+                    t.v = env.get(t.name, False)
+            kp, rp = call(p, False)
+            kq, rq = call(q, False)
+            if kp == "ok" and (kq != "ok" or bool(rq) != bool(rp)):
+                return env, rp, (rq if kq == "ok" else f"raises {rq}")
+        return None
+    for x in points:
+        if not atoms_defined(p, x):
+            continue
+        kp, rp = call(p, x)
+        if kp != "ok":
+            continue
+        kq, rq = call(q, x)
+        if kq != "ok" or bool(rq) != bool(rp):
+            return x, rp, (rq if kq == "ok" else f"raises {rq}")
+    return None
